@@ -10,6 +10,9 @@ paths are absolute `/a/b`, `/` is the root, `-` stands for "no version"):
     env-pkg <pkgname> <pkgver> <schema eps, comma separated | ->
     init
     grp <path> | ds <path> <tok> | del <path> | copy <src> <dst> <T|F> | move <src> <dst>
+    rgrp <path> | rds <path> <tok>   `require_group` / `require_dataset` (C09): no new model
+                                  operation, the composition "the existing node of the requested
+                                  kind (nothing changes), else `grp` / `ds`"
     meta <path> <sub,sub,…>      sub = set:<name>:<ver>:<tok|!bad> | del:<name> | get:<name>:<ver>
     reopen | patch
     dump                          raw tree as JSON list of [path, content]
@@ -206,6 +209,14 @@ def step' (d : DSt) : List String → DSt × String
   | ["ds", p, tok] =>
     match parsePath p with
     | some p => runOp d (.createDataset p tok)
+    | none => (d, "bad-op")
+  | ["rgrp", p] =>
+    match parsePath p with
+    | some p => if nodeKind d.st p == some false then (d, "ok") else runOp d (.createGroup p)
+    | none => (d, "bad-op")
+  | ["rds", p, tok] =>
+    match parsePath p with
+    | some p => if nodeKind d.st p == some true then (d, "ok") else runOp d (.createDataset p tok)
     | none => (d, "bad-op")
   | ["del", p] =>
     match parsePath p with
